@@ -506,9 +506,13 @@ def concurrent_round(ctx, idx, big):
         # in a third of the rounds one loader is killed at a random step boundary while the others keep going
         victim = int(rng.integers(0, k)) if rng.integers(0, 3) == 0 else None
         victim_at = int(rng.integers(1, 330))
+        missing_ok = []
         for i in range(k):
             force = bool(rng.integers(0, 3) == 0)
             flags_used.append(force)
+            # on a warm cache a loader that does not force a refresh may as well forbid downloading: the dataset is there
+            dl_if_missing = True if (force or not warm) else bool(rng.integers(0, 2))
+            missing_ok.append(dl_if_missing)
             spec = {"home": home, "audit_log": log,
                     "yield": {"seed": int(rng.integers(0, 2 ** 31)), "p": float(rng.choice([0.02, 0.1, 0.3])),
                               "max_s": float(rng.choice([0.0005, 0.002, 0.01]))},
@@ -516,7 +520,7 @@ def concurrent_round(ctx, idx, big):
                     "steps": [{"op": "net", "default": "good"},
                               {"op": "barrier", "ready": os.path.join(scratch, "ready-%d" % i), "go": go, "timeout": 120},
                               {"op": "remote", "url": url, "dataset_filename": "entry", "folder": "fold", "gz": gz,
-                               "rows": rows, "flags": {"download_if_missing": True, "download_even_if_available": force},
+                               "rows": rows, "flags": {"download_if_missing": dl_if_missing, "download_even_if_available": force},
                                "n_retries": 0, "delay": 0.1},
                               {"op": "remote", "url": url, "dataset_filename": "entry", "folder": "fold", "gz": gz,
                                "rows": rows, "n_retries": 0, "delay": 0.1}]}
@@ -553,8 +557,15 @@ def concurrent_round(ctx, idx, big):
                 if r.get("outcome") != "ok" or not _ds.same_data(r["data"], want):
                     ctx.violation("concurrent_loader_got_wrong_result", cid,
                                   {"loader": i, "load": j - 1, "forced_download": flags_used[i], "outcome": r.get("outcome"),
+                                   "download_if_missing": missing_ok[i],
                                    "exception": r.get("exc_type"), "message": r.get("exc_msg"), "data": r.get("data")})
                     return
+            # the dataset was cached before the round began and is cached after it: a loader that did not ask for a
+            # refresh is served from the cache, without a request, whatever the refreshing loaders are doing meanwhile
+            if warm and victim is None and not flags_used[i] and o["results"][2].get("requests"):
+                ctx.violation("cached_dataset_requested_again_while_another_loader_refreshes_it", cid,
+                              {"loader": i, "requests": o["results"][2]["requests"], "forced_by": [q for q, f in enumerate(flags_used) if f]})
+                return
         state = _ds.cache_entry_ok(os.path.join(home, "fold", "entry"), url, rows)
         left = _ds.leftovers(home, "fold", "entry")
         if state != "complete":
